@@ -314,7 +314,20 @@ pub fn diff<CS: BbsCiphersuite>(rep: &Report, ck: &str, op: &Op) -> D {
             let rf = r.verify(&pkb, &sb, h.as_deref().unwrap_or(b""), &ms).is_ok();
             rep.eval(ck, 1);
             rep.class(&format!("verify:{}:{}", if matches!(m, Mutn::None) { "honest" } else { "mutated" }, if rf { "accept" } else { "reject" }));
-            dec("verify", &format!("verify under {:?}", m), lib, rf)
+            dec("verify", &format!("verify under {:?}", m), lib, rf)?;
+            // the same decoded signature object asked three times: as given, with another header, as given again
+            if ms.len() % 2 == 0 {
+                if let (Ok(pk2), Some(Ok(s2))) = (BBSplusPublicKey::from_bytes(&pkb), <[u8; 80]>::try_from(sb.as_slice()).ok().map(|b| Signature::<BBSplus<CS>>::from_bytes(&b))) {
+                    let h_other = edit(&h);
+                    for (round, hh) in [(1, &h), (2, &h_other), (3, &h)] {
+                        let lib2 = s2.verify(&pk2, Some(&ms), hh.as_deref()).is_ok();
+                        let rf2 = r.verify(&pkb, &sb, hh.as_deref().unwrap_or(b""), &ms).is_ok();
+                        rep.eval(ck, 1);
+                        dec("verify", &format!("verify on one decoded object, call {} of 3 (header {}) under {:?}", round, if round == 2 { "edited" } else { "as given" }, m), lib2, rf2)?;
+                    }
+                }
+            }
+            Ok(())
         }
         Op::Proof { suite, key, header, ph, msgs, mask, by_ref, seed, m } => {
             let r = Ref::new(*suite);
@@ -424,7 +437,22 @@ pub fn diff<CS: BbsCiphersuite>(rep: &Report, ck: &str, op: &Op) -> D {
             if matches!(m, Mutn::None) && !rf {
                 return Err(("honest-proof-rejected-by-reference".into(), format!("proof {} made by {}", hx(&pb), if *by_ref { "the reference" } else { "the library" })));
             }
-            dec("proof_verify", &format!("proof_verify under {:?} (proof made by {})", m, if *by_ref { "reference" } else { "library" }), lib, rf)
+            dec("proof_verify", &format!("proof_verify under {:?} (proof made by {})", m, if *by_ref { "reference" } else { "library" }), lib, rf)?;
+            // the same decoded objects asked a second and a third time: with another header, then with the first
+            // statement again; the reference is stateless, the library must decide the same way every time
+            if st % 4 == 0 {
+                if let (Ok(pk2), Ok(pr2)) = (BBSplusPublicKey::from_bytes(&pkb), PoKSignature::<BBSplus<CS>>::from_bytes(&pb)) {
+                    let h_other = edit(&h);
+                    for (round, hh) in [(1, &h), (2, &h_other), (3, &h)] {
+                        let lib2 = pr2.proof_verify(&pk2, Some(&dm), Some(&idx), hh.as_deref(), p.as_deref()).is_ok();
+                        let rf2 = r.proof_verify(&pkb, &pb, hh.as_deref().unwrap_or(b""), p.as_deref().unwrap_or(b""), &dm, &idx).is_ok();
+                        rep.eval(ck, 1);
+                        dec("proof_verify", &format!("proof_verify on one decoded object, call {} of 3 (header {}) under {:?}", round, if round == 2 { "edited" } else { "as given" }, m), lib2, rf2)?;
+                    }
+                    rep.class("proof:one-object-three-calls");
+                }
+            }
+            Ok(())
         }
         Op::Blind { suite, key, header, ph, msgs, committed, mask, cmask, by_ref, seed, m } => {
             let r = Ref::new(*suite);
@@ -781,7 +809,7 @@ pub fn run(ctx: &Ctx, rep: &Report) -> Meta {
                hash_to_scalar (dst up to 400 octets), messages_to_scalars, Sign, and verifier decisions on honest and mutated artefacts (message / header / ph / pk edits, bit flips, index shifts, whole-scalar framing edits, zero scalars, a scalar written as value + r, artefacts forged around the identity element (proof with Abar = Bbar = O and cancelling responses, signature under the identity public key), identity points, trailing bytes, L+-1, other blinding factor, list shapes of the disclosed data: one more message than indexes, one more (unlisted) index than messages, a second entry under an index that is already listed) \
                for verify, proof_verify, blind_sign's commitment validation, verify_blind_sign, blind_proof_verify; proofs and commitments made by the library must be accepted by the reference and vice versa; \
                oracle: byte equality of outputs and equality of Ok/Err decisions with the independent reference model, which must first reproduce every fixture; \
-               size sweep: Sign octets, proof and blind round trips for every L in 0..=72 (quick) / 0..=260 (thorough); every message length 0..=600 / 2100 through messages_to_scalars, every header length 0..=1100 through Sign, every hash_to_scalar input length 0..=300, every interface-identifier length 190..=262 through messages_to_scalars and create_generators; a third of the operations after a warm-up history; volume: 3600 (quick) / 40000 (thorough) small Sign / Verify / ProofVerify comparisons; schedules: lists of such operations executed by 2, 4 or 16 threads released from a barrier in rotated orders; non-trivial = every generated operation (none coincides with a fixture); evaluations = compared outputs / decisions"
+               size sweep: Sign octets, proof and blind round trips for every L in 0..=72 (quick) / 0..=260 (thorough); every message length 0..=600 / 2100 through messages_to_scalars, every header length 0..=1100 through Sign, every hash_to_scalar input length 0..=300, every interface-identifier length 190..=262 through messages_to_scalars and create_generators; a third of the operations after a warm-up history; a quarter of the verification comparisons ask the same decoded object three times (as given, other header, as given); volume: 3600 (quick) / 40000 (thorough) small Sign / Verify / ProofVerify comparisons; schedules: lists of such operations executed by 2, 4 or 16 threads released from a barrier in rotated orders; non-trivial = every generated operation (none coincides with a fixture); evaluations = compared outputs / decisions"
             .into(),
         assumptions: vec![
             "trusted and shared with the library: bls12_381_plus arithmetic, point compression, pairing, hash_to_curve, sha2 / sha3".into(),
